@@ -229,7 +229,10 @@ for _p in ("C03", "C14"):
                                   "up to l_a + l_b = 6)")
 for _p in ("C04", "C17"):
     CHECKS[_p].harnesses.append("contracts.unbounded:TwoElecRecursionsAnyL")
-    CHECKS[_p].assumptions.append("contracts.unbounded (vertical and electron-transfer recursions of the two-electron kernel, any l): engine/generic.py's "
-                                  "reading of numpy basic indexing / broadcasting / in-order slice assignment; the Obara-Saika / HGP relations characterise "
-                                  "the auxiliary integrals (tied to the Boys-derivative specification by the per-shape contract up to total l = 8); "
-                                  "contraction, horizontal recursions and component norms are covered per shape only")
+    CHECKS[_p].assumptions.append("contracts.unbounded (the WHOLE two-electron kernel, any l_a..l_d, any Cartesian component): engine/generic.py's "
+                                  "reading of numpy basic indexing / leading integer-array indexing / broadcasting / in-order slice assignment / tensordot "
+                                  "over a concrete axis / transpose; (4 alpha)^(l/2) and (2k-1)!! with symbolic l, k as opaque positive atoms built "
+                                  "identically on the specification side; the Obara-Saika / HGP relations characterise the auxiliary integrals (tied to "
+                                  "the Boys-derivative specification by the per-shape contract up to total l = 8); one generic component row per shell "
+                                  "stands for all rows (rows only index; their broadcasting against each other is covered per shape); numbers of "
+                                  "primitives / segments are those of the harness shapes")
